@@ -88,6 +88,12 @@ VARIANTS = [
          old="        bins[bin_name] = _mask_nans(bin_values)", new="        bins[bin_name] = bin_values"),
     dict(id="c18-bin0-out-of-bin-uses-left", property="C18", kind="break", expect_rule="R18.5", file=F,
          old="                pd.Series(right_bin, index=not_in_bin_index)", new="                pd.Series(left_bin, index=not_in_bin_index)"),
+    dict(id="c18-bins-by-clip-first-bin-from-zero", property="C18", kind="break", expect_rule="R18.5", file=F,
+         old='        in_bin = (temperatures > left_bin) & (temperatures <= right_bin)\n        gt_bin = temperatures > right_bin\n\n        not_in_bin_index = temperatures.index[~in_bin]\n        gt_bin_index = temperatures.index[gt_bin]\n\n        def _expand_and_fill(partial_temp_series):\n            return partial_temp_series.reindex(temperatures.index, fill_value=0)\n\n        def _mask_nans(temp_series):\n            return temp_series[temperatures.notnull()].reindex(temperatures.index)\n\n        if i == 0:\n            temps_in_bin = _expand_and_fill(temperatures[in_bin])\n            temps_out_of_bin = _expand_and_fill(\n                pd.Series(right_bin, index=not_in_bin_index)\n            )\n            bin_values = temps_in_bin + temps_out_of_bin\n        else:\n            temps_in_bin = _expand_and_fill(temperatures[in_bin] - left_bin)\n            temps_gt_bin = _expand_and_fill(\n                pd.Series(right_bin - left_bin, index=gt_bin_index)\n            )\n            bin_values = temps_in_bin + temps_gt_bin\n        bins[bin_name] = _mask_nans(bin_values)\n',
+         new="        bin_start = 0 if i == 0 else left_bin\n        bins[bin_name] = (temperatures - bin_start).clip(lower=0, upper=right_bin - bin_start)\n"),
+    dict(id="c18-benign-bins-by-clip", property="C18", kind="benign", file=F,
+         old='        in_bin = (temperatures > left_bin) & (temperatures <= right_bin)\n        gt_bin = temperatures > right_bin\n\n        not_in_bin_index = temperatures.index[~in_bin]\n        gt_bin_index = temperatures.index[gt_bin]\n\n        def _expand_and_fill(partial_temp_series):\n            return partial_temp_series.reindex(temperatures.index, fill_value=0)\n\n        def _mask_nans(temp_series):\n            return temp_series[temperatures.notnull()].reindex(temperatures.index)\n\n        if i == 0:\n            temps_in_bin = _expand_and_fill(temperatures[in_bin])\n            temps_out_of_bin = _expand_and_fill(\n                pd.Series(right_bin, index=not_in_bin_index)\n            )\n            bin_values = temps_in_bin + temps_out_of_bin\n        else:\n            temps_in_bin = _expand_and_fill(temperatures[in_bin] - left_bin)\n            temps_gt_bin = _expand_and_fill(\n                pd.Series(right_bin - left_bin, index=gt_bin_index)\n            )\n            bin_values = temps_in_bin + temps_gt_bin\n        bins[bin_name] = _mask_nans(bin_values)\n',
+         new="        if i == 0:\n            bins[bin_name] = temperatures.clip(upper=right_bin)\n        else:\n            bins[bin_name] = (temperatures - left_bin).clip(lower=0, upper=right_bin - left_bin)\n"),
     dict(id="c18-benign-bin-boundary-closed-left", property="C18", kind="benign", file=F,
          old="        in_bin = (temperatures > left_bin) & (temperatures <= right_bin)\n        gt_bin = temperatures > right_bin",
          new="        in_bin = (temperatures >= left_bin) & (temperatures < right_bin)\n        gt_bin = temperatures >= right_bin"),
